@@ -81,7 +81,7 @@ build_debug() {
 # build the Miri sysroot and the small program interpreted by the Miri pass of C20 (best effort)
 build_miri() {
     if cargo +nightly miri --version >/dev/null 2>&1; then
-        (cd "$ROOT/miri" && CARGO_TARGET_DIR="$ROOT/target/miri" MIRIFLAGS="-Zmiri-seed=0 -Zmiri-disable-isolation" cargo +nightly miri run --offline --quiet -- 0 >/dev/null 2>&1) || true
+        (cd "$ROOT/miri" && CARGO_TARGET_DIR="$ROOT/target/miri" MIRIFLAGS="-Zmiri-seed=0" cargo +nightly miri run --offline --quiet -- 0 >/dev/null 2>&1) || true
     fi
 }
 case "${1:-}" in
